@@ -86,7 +86,7 @@ static void die_with(int kind, const char *fmt, ...) {
 /* decide who runs next; called with `big` held by the running thread; returns when `me` is scheduled again */
 static void point(void) {
     int en[MAXT], ne = 0;
-    steps_exec++;
+    steps_exec++; X->steps++;
     if (npts >= HORIZON) die_with(2, "runaway: more than %d scheduling points in one execution (livelock?)", HORIZON);
     if (is_enabled(me)) en[ne++] = me;
     for (int t = 0; t < nth; t++) if (t != me && is_enabled(t)) en[ne++] = t;
@@ -332,7 +332,7 @@ static void run_once(void) {
     sched_reset();
     run_factor_case(&TM, &CFG, &RES);
     mon_final(RES.info);
-    X->executions++; X->choice_points += npts; X->steps += steps_exec; if (npts > X->maxpts) X->maxpts = npts;
+    X->executions++; X->choice_points += npts; if (npts > X->maxpts) X->maxpts = npts;
     /* end-of-execution oracles */
     int n = TM.n; char msg[400];
     static mref_t mr; static int mr_ok; if (!mr_ok) { mref_compute(&TM, &mr); mr_ok = 1; }
@@ -450,7 +450,27 @@ int main(int argc, char **argv) {
         fflush(NULL);
         pid_t pid = fork();
         if (pid == 0) { vf_install_fault_handlers(); explore(); fflush(NULL); _exit(0); }
-        int st = 0; waitpid(pid, &st, 0); vf_last_child = pid;
+        /* watchdog: an execution that makes no scheduling progress for 30 s (a loop between two hook points) is killed and reported */
+        int st = 0; long last_steps = -1, last_exec = -1; double last_change = now_s(); int hung = 0;
+        for (;;) {
+            pid_t w = waitpid(pid, &st, WNOHANG);
+            if (w == pid) break;
+            long s1 = X->steps, e1 = X->executions;
+            if (s1 != last_steps || e1 != last_exec || !X->in_exec) { last_steps = s1; last_exec = e1; last_change = now_s(); }
+            else if (now_s() - last_change > 30) { hung = 1; kill(pid, SIGKILL); waitpid(pid, &st, 0); break; }
+            usleep(20000);
+        }
+        vf_last_child = pid;
+        if (hung) {
+            X->deaths++; X->violations++;
+            char rep[1400]; int o = snprintf(rep, sizeof rep, "%s", CASE); sched_str(rep + o, sizeof rep - o, X->cur_prefix, X->cur_len);
+            int want = !strcmp(PROP, "C04") || !strcmp(PROP, "C03") || !strcmp(PROP, "C01");
+            int seen = 0; for (int i = 0; i < X->nsig; i++) if (!strcmp(X->viol_sigs[i], "C04:hang")) seen = 1;
+            if (want && !seen) { if (X->nsig < 32) snprintf(X->viol_sigs[X->nsig++], 96, "C04:hang"); out_violation(PROP, "C04:hang", rep, "the execution made no progress for 30 s between two scheduling points (endless loop inside the library)"); }
+            X->lost_subtrees++; X->in_exec = 0;
+            if (X->deaths > 50) { complete = 0; break; }
+            continue;
+        }
         if (WIFEXITED(st) && WEXITSTATUS(st) == 0) { if (!X->done) complete = 0; break; }
         /* the execution with prefix X->cur_prefix killed the explorer */
         X->deaths++; X->violations++;
